@@ -35,12 +35,12 @@ RELEVANT = {
 }
 
 ARGS = {
-    ("C01", "quick"): ["-modes", "paths,shapes,random", "-shape-pipelines", "3", "-random", "350"],
-    ("C01", "thorough"): ["-modes", "paths,shapes,random,cancel", "-shape-pipelines", "3", "-random", "4000", "-cancel-random", "10", "-cancel-reps", "2"],
-    ("C02", "quick"): ["-modes", "paths,thresholds,cancel", "-thr-pipelines", "3", "-cancel-random", "2"],
-    ("C02", "thorough"): ["-modes", "paths,thresholds,cancel,random", "-thr-pipelines", "4", "-cancel-random", "12", "-cancel-reps", "3", "-random", "1500"],
-    ("C03", "quick"): ["-modes", "paths,cancel,random", "-cancel-random", "6", "-random", "150"],
-    ("C03", "thorough"): ["-modes", "paths,cancel,random,shapes", "-cancel-random", "40", "-cancel-reps", "4", "-random", "2500", "-shape-pipelines", "3"],
+    ("C01", "quick"): ["-modes", "paths,sequence,shapes,random", "-sequence-random", "15", "-shape-pipelines", "3", "-random", "300"],
+    ("C01", "thorough"): ["-modes", "paths,sequence,shapes,random,cancel", "-sequence-random", "200", "-shape-pipelines", "3", "-random", "4000", "-cancel-random", "10", "-cancel-reps", "2"],
+    ("C02", "quick"): ["-modes", "paths,sequence,thresholds,cancel", "-sequence-random", "15", "-thr-pipelines", "3", "-cancel-random", "2"],
+    ("C02", "thorough"): ["-modes", "paths,sequence,thresholds,cancel,random", "-sequence-random", "200", "-thr-pipelines", "4", "-cancel-random", "12", "-cancel-reps", "3", "-random", "1500"],
+    ("C03", "quick"): ["-modes", "paths,twosend,cancel,random", "-twosend-reps", "3", "-cancel-random", "6", "-random", "150"],
+    ("C03", "thorough"): ["-modes", "paths,twosend,sequence,cancel,random,shapes", "-twosend-reps", "8", "-sequence-random", "100", "-cancel-random", "40", "-cancel-reps", "4", "-random", "2500", "-shape-pipelines", "3"],
 }
 
 ASSUMPTIONS = [
@@ -87,11 +87,12 @@ def _load_cases(cdir):
 
 
 def _size(c):
-    return (len(c.get("hist") or []), len((c.get("observed") or {}).get("trace") or []))
+    then = c.get("then") or []
+    return (len(then), len(c.get("hist") or []) + sum(len(t.get("ops") or []) for t in then), len((c.get("observed") or {}).get("trace") or []))
 
 
 def _input_of(c):
-    return {k: c[k] for k in ("id", "gen", "hist", "ety", "beh", "gate", "sched") if k in c}
+    return {k: c[k] for k in ("id", "gen", "hist", "ety", "beh", "gate", "sched", "then", "send_index") if k in c}
 
 
 def run(ctx, prop=None):
